@@ -1018,7 +1018,9 @@ fn run(case: &Value) -> Obs {
 // gen
 // ------------------------------------------------------------------------------------------------
 
-const STRS: &[&str] = &["", "a", "x-y", "é", "a\"b", "back\\slash", "line\nbreak", "tab\there", "\u{1}\u{1f}", "\u{7f}", "\u{2028}", "😀", "</script>", "@m", "v-@m", "null", "0"];
+const STRS: &[&str] = &["", "a", "x-y", "é", "a\"b", "back\\slash", "line\nbreak", "tab\there", "\u{1}\u{1f}", "\u{7f}", "\u{2028}", "😀", "</script>", "@m", "v-@m", "null", "0",
+    // leading / trailing white space must survive the round trip verbatim (seed r8f-1: a trimming deserialiser for header values)
+    " lead", "trail ", "\ttab-lead", "tab-trail\t", " ", " both \t"];
 const IDS: &[&str] = &["r1", "r2", "r3", "r4", "r5", "r6", "r\"7", "r\u{e9}8", ""];
 const HEADER_ACTIONS: &[&str] = &["add", "remove", "replace", "override", "default", "frobnicate"];
 const TEXT_ACTIONS: &[&str] = &["append_text", "prepend_text", "replace_text"];
